@@ -67,6 +67,10 @@ TInit ==
      /\ sact = [a |-> "init"]
 
 Note(good) == IF good \/ Len(drift) >= 5 THEN drift ELSE Append(drift, l)
+\* the REST API (GET /sensor/, GET /curve/) queried right after the step serves exactly the state after the step
+ApiOk(e, a, cv) ==
+  /\ \A s \in SensorIds : ById(e.api.sensors, s).am = a[s]
+  /\ \A c \in CurveIds : ById(e.api.curves, c).v = cv[c]
 
 \* a poll of sensor e.s: e.fault = "" for a successful read of a value in [xlo, xhi] (1/1000 units)
 StepPoll(e) ==
@@ -82,6 +86,7 @@ StepPoll(e) ==
                      THEN /\ e.am >= am[e.s] + TruncDiv(e.xlo - am[e.s], Win) - 2
                           /\ e.am <= am[e.s] + TruncDiv(e.xhi - am[e.s], Win) + 2
                      ELSE e.am = am[e.s])
+            \o (IF ApiOk(e, [am EXCEPT ![e.s] = e.am], cval) THEN <<>> ELSE IF Len(drift) >= 5 THEN <<>> ELSE <<l>>)
 
 ValsOf(e) == [c \in CurveIds |-> ById(e.vals, c).v]
 \* what the cycle of fan e.f evaluated is the documented function of the current sensor state
@@ -107,7 +112,8 @@ StepCycle(e) ==
   /\ drift' = Note(/\ ~e.err
                    /\ ById(e.pwms, e.f).v \in RescaleSet(vals[FanCfg[e.f].curve], FanCfg[e.f].gmin, FanCfg[e.f].mx)
                    /\ \A g \in FanIds \ {e.f} : ById(e.pwms, g).v = fpwm[g] \/ fpwm[g] = -1
-                   /\ \A d \in CurveIds \ Closure(FanCfg[e.f].curve) : vals[d] = cval[d])
+                   /\ \A d \in CurveIds \ Closure(FanCfg[e.f].curve) : vals[d] = cval[d]
+                   /\ ApiOk(e, am, vals))
 
 TNext == /\ l <= N /\ l' = l + 1
          /\ LET e == Trace[l] IN
